@@ -1221,7 +1221,8 @@ func Hydro(horizon int, g *GlobalVarsMain, local *InputSharedVars, hPath *HFileP
 
 			g.WUMAX[horizonIndex] = ValAsFloat(wa[31:33], hyparName, wa)
 			if horizon == 1 {
-				calcWRed(g.LIM[horizonIndex]*100, local.FK[horizonIndex]*100, g)
+				// wilting point and field capacity of the layers are reduced by the stone content: so is the threshold between them
+				calcWRed(g.LIM[horizonIndex]*100*(1-g.STEIN[horizonIndex]), local.FK[horizonIndex]*100*(1-g.STEIN[horizonIndex]), g)
 			}
 			break
 		}
